@@ -23,7 +23,7 @@ empty string is `-`.
   frag-fmt (p <term>+)         → s:<hex>   model of format_program on the fragment (Core/Text/Fragment)
   frag-print <width> (p <term>+) → s:<hex>   print (programDoc terms) width
   frag-parse <hex-source>      → ok (pp (p <term>+)*) <hex-rest> | err <offset-from-end> <code> | out   (programP)
-      <term> ::= (l <hex-name>) | (s <hex-string-value>) | (i <decimal>) | (b <hex-bytes | ->) | (t <hex-tuple-name | _> <field>*)    <field> ::= (u <term>) | (n <hex-label> <term>)
+      <term> ::= (l <hex-name>) | (c <term> <term>+) | (s <hex-string-value>) | (i <decimal>) | (b <hex-bytes | ->) | (t <hex-tuple-name | _> <field>*)    <field> ::= (u <term>) | (n <hex-label> <term>)
 -/
 open QM QM.Text
 
@@ -132,6 +132,10 @@ def renderOpt : Option (List Char) → String
 mutual
 partial def fragOfSx : Sx → Option QM.Frag.T
   | .list [.atom "l", .atom h] => (hexToChars h).map .leaf
+  | .list (.atom "c" :: t :: more) =>
+    match fragOfSx t, more.mapM fragOfSx with
+    | some t, some more => some (.chain t more)
+    | _, _ => none
   | .list [.atom "s", .atom h] => (hexToChars h).map .str
   | .list [.atom "i", .atom d] => d.toInt?.map .int
   | .list [.atom "b", .atom h] =>
@@ -153,6 +157,7 @@ end
 mutual
 partial def fragToSx : QM.Frag.T → String
   | .leaf n => s!"(l {charsToHex n})"
+  | .chain t more => "(c " ++ fragToSx t ++ String.join (more.map (fun u => " " ++ fragToSx u)) ++ ")"
   | .str v => s!"(s {charsToHex v})"
   | .int i => s!"(i {i})"
   | .bin bs => "(b " ++ (if bs.isEmpty then "-" else String.ofList (QM.Frag.hexText bs)) ++ ")"
